@@ -164,6 +164,24 @@ func runDetChart(res *core.Result, cs *chartSpec, rng *rand.Rand, root string, i
 			res.Evals++
 		}
 	})
+	// (1c) other renders in between: client-only render on configuration A, an unrelated client-only
+	// render with another --api-versions value on configuration B, then A again — client-only, and
+	// as a plain dry-run that re-uses the capabilities the first render left on configuration A
+	core.Guard(res, "renders interleaved with renders of another configuration", func() {
+		cfgA := offlineConfig()
+		onA := func() snap { return renderInstall(fresh(), cs.Vals, cs.Flags, cfgA) }
+		j.compare("other-renders-in-between", onA(), onA)
+		renderNeighbour(cs.Flags.APIVersions)
+		again := func() snap {
+			renderNeighbour(cs.Flags.APIVersions)
+			return dryRunOnConfig(fresh(), cs.Vals, cs.Flags, cfgA)
+		}
+		j.compare("other-renders-in-between", dryRunOnConfig(fresh(), cs.Vals, cs.Flags, cfgA), again)
+		renderNeighbour(cs.Flags.APIVersions)
+		j.compare("other-renders-in-between", onA(), onA)
+		res.Stat("interleaved_renders_compared", 3)
+		res.Evals += 3
+	})
 	// (1b) ToRenderValues + engine.Render repeatedly on ONE loaded chart object
 	core.Guard(res, "engine.Render of a generated chart", func() {
 		ch, top, err := prepareEngine(cs)
@@ -309,6 +327,16 @@ func runConcChart(res *core.Result, cs *chartSpec, idx int, can *canaries, verbo
 			defer wg.Done()
 			installs[g] = j.again()
 		}(g)
+	}
+	// next to them: unrelated client-only renders with another --api-versions value
+	for g := 0; g < G/2; g++ {
+		wg.Add(1)
+		go func() {
+			defer wg.Done()
+			for i := 0; i < 4; i++ {
+				renderNeighbour(cs.Flags.APIVersions)
+			}
+		}()
 	}
 	wg.Wait()
 	for g := 0; g < G; g++ {
